@@ -26,8 +26,8 @@ DTS = ["b1", "i8", "u1", "f4", "f8", "c8", "c16", ">f8", ">c8"]  # (the last two
 G.DT.setdefault("i2", np.int16)
 G.DT.setdefault(">f8", np.dtype(">f8"))
 G.DT.setdefault(">c8", np.dtype(">c8"))
-ARR1 = ["s", "s_dask", "out_partial"]
-ARR2 = ["ss", "sa", "as", "sk", "ks", "sq", "qs", "out", "out_tuple", "ss_dask", "s0d", "bcast", "out_partial", "out_partial_as"]
+ARR1 = ["s", "s_dask", "out_partial", "where_sig"]
+ARR2 = ["ss", "sa", "as", "sk", "ks", "sq", "qs", "out", "out_tuple", "ss_dask", "s0d", "bcast", "out_partial", "out_partial_as", "where_sig"]
 SUBCLASS = {"Signal": "RadioSignal", "RadioSignal": "IntensitySignal", "IntensitySignal": "FullStokesSignal", "BasebandSignal": "DualPolarizationSignal"}
 
 
@@ -51,6 +51,22 @@ def partial_out(pb, f, cls, args, first, outs, what):
         check_result(pb, r[1 - pos], outs[1 - pos], first, what + " [output %d, not supplied; output %d is a %s]" % (1 - pos, pos, tcls))
     return "ok"
 
+
+
+def where_signal(pb, f, cls, args, raw, outs, what):
+    """where= given as a (boolean) SIGNAL with out= a signal: the mask is an operand like the others -- its data select the elements written"""
+    mask = (np.arange(raw[0].size).reshape(raw[0].shape) % 3) != 1
+    msig = pb.Signal(mask.copy(), sample_rate=1 * u.Hz)
+    e = np.full_like(outs[0], 7)
+    f(*raw, where=mask, out=e)
+    t = mk_sig(pb, cls, np.full_like(outs[0], 7), 2)
+    before, buf = attrs(t), t.data
+    with lib(what + " where=<Signal of bool>, out=<signal>"):
+        r = f(*args, where=msig, out=t)
+    check(r is t and t.data is buf and same_attrs(attrs(t), before), "{}: where=signal, out=signal did not return the given signal with its own metadata", what)
+    check(same_bits(t.data, e), "{}: where=<signal> did not select the elements its data select", what)
+    check(same_bits(msig.data, mask), "{}: the mask signal was modified", what)
+    return "ok"
 
 
 def base_data(dt, shape=(4, 3), salt=0):
@@ -143,6 +159,8 @@ def one_ufunc_case(pb, f, dt, arr, cls, stt=None):
             a = mk_sig(pb, cls, x.copy(), 0, dask)
             if arr == "out_partial":
                 return partial_out(pb, f, cls, (a,), a, outs, what) if f.nout == 2 else "skip:single_output"
+            if arr == "where_sig":
+                return where_signal(pb, f, cls, (a,), (x,), outs, what) if f.nout == 1 else "skip:two_outputs"
             with lib(what):
                 r = f(a)
             rs = r if isinstance(r, tuple) else (r,)
@@ -165,7 +183,7 @@ def one_ufunc_case(pb, f, dt, arr, cls, stt=None):
             if q is None:
                 return "skip:quantity_ufunc"
         ops = {"ss": (x, y), "ss_dask": (x, y), "sa": (x, y), "as": (y, x), "sk": (x, k), "ks": (k, x), "sq": (x, None), "qs": (None, x),
-               "out": (x, y), "out_tuple": (x, y), "s0d": (x, np.array(k)), "bcast": (x, y[:1]), "out_partial": (x, y), "out_partial_as": (y, x)}[arr]
+               "out": (x, y), "out_tuple": (x, y), "s0d": (x, np.array(k)), "bcast": (x, y[:1]), "out_partial": (x, y), "out_partial_as": (y, x), "where_sig": (x, y)}[arr]
         raw = tuple(q if o is None else o for o in ops)
         try:
             exp = f(*raw)
@@ -200,6 +218,8 @@ def one_ufunc_case(pb, f, dt, arr, cls, stt=None):
             args, first = (a, b), a
         if arr == "out_partial":
             return partial_out(pb, f, cls, (a, b), a, outs, what) if f.nout == 2 else "skip:single_output"
+        if arr == "where_sig":
+            return where_signal(pb, f, cls, (a, b), (x, y), outs, what) if f.nout == 1 else "skip:two_outputs"
         if arr == "out_partial_as":
             # ... and with a plain array as the leading operand: the only signal among the inputs is still the first signal operand
             return partial_out(pb, f, cls, (y.copy(), a), a, outs, what) if f.nout == 2 else "skip:single_output"
